@@ -77,7 +77,7 @@ theorem good_insert (hP : P.Wire) (w : World) (p : PGhost ι) (hg : Good P hf w 
         rcases hd hp hin with h1 | h1
         · exact Or.inl h1
         · right; rw [h1, hX, hoff]
-          have := hnewpos (hok.k1 hp) 0 b
+          have := hnewpos (hok.k1 hp).1 0 b
           omega
       · intro _ hdf
         rcases hd hp hin with h1 | h1
@@ -154,7 +154,7 @@ theorem good_insert (hP : P.Wire) (w : World) (p : PGhost ι) (hg : Good P hf w 
           rcases hd hp hin with h1 | h1
           · exact Or.inl h1
           · right; rw [h1, hX, hoff]
-            have := hnewpos (hok.k1 hp) 256 (w.blockVal m)
+            have := hnewpos (hok.k1 hp).1 256 (w.blockVal m)
             omega
         · intro hdf
           rcases hd hp hin with h1 | h1
